@@ -2,6 +2,7 @@ package main
 
 import (
 	"fmt"
+	"regexp"
 	"go/constant"
 	"go/token"
 	"go/types"
@@ -89,9 +90,9 @@ func (c *Ctx) mayBeNilError(fn *ssa.Function, v ssa.Value, r *ssa.Return) bool {
 	for _, ft := range fi.factsAt(r.Block()) {
 		if bo, ok := ft.Cond.(*ssa.BinOp); ok && (bo.Op == token.NEQ || bo.Op == token.EQL) {
 			var other ssa.Value
-			if bo.X == v {
+			if bo.X == v || sameCellLoad(bo.X, v) {
 				other = bo.Y
-			} else if bo.Y == v {
+			} else if bo.Y == v || sameCellLoad(bo.Y, v) {
 				other = bo.X
 			}
 			if other != nil && isNilConst(other) {
@@ -103,6 +104,23 @@ func (c *Ctx) mayBeNilError(fn *ssa.Function, v ssa.Value, r *ssa.Return) bool {
 		}
 	}
 	return true
+}
+
+// sameCellLoad: a and b are both loads of the same local cell (a captured or address-taken variable).
+func sameCellLoad(a, b ssa.Value) bool {
+	ua, ok1 := a.(*ssa.UnOp)
+	ub, ok2 := b.(*ssa.UnOp)
+	if !ok1 || !ok2 || ua.Op != token.MUL || ub.Op != token.MUL {
+		return false
+	}
+	if ua.X != ub.X {
+		return false
+	}
+	switch ua.X.(type) {
+	case *ssa.Alloc, *ssa.FreeVar:
+		return true
+	}
+	return false
 }
 
 // ---- G6 hooks can only reject --------------------------------------------------------------
@@ -308,7 +326,12 @@ func ruleG7(c *Ctx) {
 
 // reviewedCells: persistent hook cells confirmed harmless by reading, one reason each.
 var reviewedCells = map[string]string{
-	"semantic.varAccumulator cell lastNopToken": "read only directly after an AS token of the same projection; a stale value cannot be observed because every non-AS token clears or ignores it before the next read",
+	"semantic.varAccumulator cell lastNopToken": "read only once the projection already has its binding (p.Binding != \"\"), i.e. after a token of this statement went through the hook; the binding token itself never reads it, and every token other than AS clears it",
+}
+
+// reviewedCellReadGuard: the dominating fact every read of a reviewed cell must have (the reason it is harmless).
+var reviewedCellReadGuard = map[string]string{
+	"semantic.varAccumulator cell lastNopToken": `\.Binding == ""\)=false`,
 }
 
 func ruleG5(c *Ctx) {
@@ -343,7 +366,33 @@ func ruleG5(c *Ctx) {
 			cells++
 			key := fmt.Sprintf("%s cell %s", funcName(fn.Parent()), fv.Name())
 			if why, ok := reviewedCells[key]; ok {
-				c.ok(key, pos, "reviewed: %s", why)
+				// the review rests on where the cell is read: re-verify that
+				need := reviewedCellReadGuard[key]
+				okReads := true
+				if need != "" {
+					re := regexp.MustCompile(need)
+					fi := c.fi(fn)
+					allInstrs(fn, func(in ssa.Instruction) {
+						u, isLoad := in.(*ssa.UnOp)
+						if !isLoad || u.Op != token.MUL || u.X != ssa.Value(fv) {
+							return
+						}
+						hit := false
+						for _, ft := range fi.factsAt(in.Block()) {
+							if re.MatchString(fmt.Sprintf("%s=%v", c.term(ft.Cond), ft.Truth)) {
+								hit = true
+							}
+						}
+						if !hit {
+							okReads = false
+						}
+					})
+				}
+				if okReads {
+					c.ok(key, pos, "reviewed: %s", why)
+				} else {
+					c.bad(key, pos, "the reviewed argument for %s (%s) no longer holds: the cell is now read on a path not guarded by %s, so a value left behind by an earlier (rejected) statement is observed", key, why, need)
+				}
 			} else {
 				c.bad(key, pos, "hook closure of %s assigns captured variable %s, which survives until the next statement parsed with the same parser: an earlier (possibly rejected) statement can change the meaning of a later one", funcName(fn.Parent()), fv.Name())
 			}
